@@ -79,6 +79,22 @@ def kind_of_call(callee):
     return "call:" + callee.split("::")[-1]
 
 
+def _const_arith_fits(blk, term):
+    """The assert guards `a op b` of the same block with both operands constants whose result fits the operand type."""
+    cond = term.get("cond", {})
+    loc_ = (cond.get("move") or cond.get("copy") or {}).get("l")
+    for st in blk.get("stmts", []):
+        rv = st.get("rv", {}) if st.get("k") == "assign" else {}
+        if st.get("p", {}).get("l") == loc_ and rv.get("k") == "bin" and str(rv.get("op", "")).endswith("WithOverflow"):
+            a, b = rv.get("a", {}), rv.get("b", {})
+            tr = INT_RANGE.get(str(rv.get("aty", "")))
+            if tr and isinstance(a.get("v"), int) and isinstance(b.get("v"), int) and "const_ty" in a and "const_ty" in b:
+                op = rv["op"][:-len("WithOverflow")]
+                r = {"Add": a["v"] + b["v"], "Sub": a["v"] - b["v"], "Mul": a["v"] * b["v"]}.get(op)
+                return r is not None and tr[0] <= r <= tr[1]
+    return False
+
+
 def mir_sites(body):
     """Ground truth: reachable, non-cleanup Assert terminators and panic-capable calls of one MIR body."""
     m = body.get("mir")
@@ -92,6 +108,8 @@ def mir_sites(body):
             continue
         t = blk["term"]
         if t["k"] == "assert":
+            if str(t.get("msg", "")).startswith("Overflow(") and _const_arith_fits(blk, t):
+                continue          # arithmetic of two compile-time constants that fits its type (e.g. `Variant as usize`: discriminant + 0)
             out.append({"kind": t["msg"], "ln": t.get("ln"), "mac": t.get("mac"), "term": t, "bb": i})
         elif t["k"] == "call":
             cal = mir.callee(t)
